@@ -83,11 +83,13 @@ namespace igris
             m_data = alloc.allocate(oth.size());
             m_size = oth.size();
 
-            auto ptr = m_data;
+            construct_guard guard(*this);
             for (const auto &ref : oth)
             {
-                new (ptr++) T(ref);
+                new (m_data + guard.done) T(ref);
+                ++guard.done;
             }
+            guard.armed = false;
 
             return *this;
         }
@@ -105,14 +107,47 @@ namespace igris
             create_buffer(size);
         }
 
+        // While the elements of a freshly allocated block are constructed:
+        // when an element constructor throws, the elements constructed so
+        // far are destroyed, the block is released and the array is left
+        // empty (m_size covered raw storage, which the destructor destroyed).
+        // A guard object instead of try/catch, so that the header still
+        // compiles with -fno-exceptions.
+        struct construct_guard
+        {
+            unbounded_array &arr;
+            size_t done;
+            bool armed;
+
+            explicit construct_guard(unbounded_array &a)
+                : arr(a), done(0), armed(true)
+            {
+            }
+
+            ~construct_guard()
+            {
+                if (!armed)
+                    return;
+                while (done > 0)
+                {
+                    arr.m_data[--done].~T();
+                }
+                arr.alloc.deallocate(arr.m_data, arr.m_size);
+                arr.m_data = nullptr;
+                arr.m_size = 0;
+            }
+        };
+
         void create_buffer(size_t size)
         {
             m_data = alloc.allocate(size);
             m_size = size;
-            for (size_t i = 0; i < size; ++i)
+            construct_guard guard(*this);
+            for (; guard.done < size; ++guard.done)
             {
-                new (m_data + i) T();
+                new (m_data + guard.done) T();
             }
+            guard.armed = false;
         }
 
         void invalidate()
